@@ -77,6 +77,11 @@ let judges : (string * (Gsext.sx -> Gsext.verdict)) list = [
   "C17", Gsext.judge_C17;
   "render17", Gsext.render17;
   "C19", Gsext.judge_C19;
+  "solve_m", Gsext.judge_solve_case_m;
+  "C03m", Gsext.judge_C03_m;
+  "C05m", Gsext.judge_C05_m;
+  "C09m", Gsext.judge_C09_m;
+  "C10m", Gsext.judge_C10_m;
   "C13", Gsext.judge_C13;
   "render13", Gsext.render13;
   "C18", Gsext.judge_C18;
